@@ -352,16 +352,10 @@ def a4(model: Model, rep: Report):
                        "index and acquisition tag")
     A = model.cls("AcquisitionIdentifier")
     flds = A.all_fields()
-    uid = [(n, fi) for n, fi in flds.items() if fi.compare and fi.default_factory is not None and isinstance(fi.default_factory, ast.Lambda)]
-    post = A.resolve("__post_init__")
-    ok = False
-    if len(uid) == 1 and post is not None:
-        body = uid[0][1].default_factory.body
-        if isinstance(body, ast.Attribute) and isinstance(body.value, ast.Name):
-            counter = f"{body.value.id}.{body.attr}"
-            incs = [st for st in post.body if isinstance(st, ast.AugAssign) and isinstance(st.op, ast.Add) and ast.unparse(st.target) == counter
-                    and isinstance(st.value, ast.Constant) and st.value.value > 0]
-            ok = len(incs) == 1
+    from .c03 import unique_identifier
+    from .common import factory_counter
+    uid = [(n, fi) for n, fi in flds.items() if fi.compare and fi.default_factory is not None and factory_counter(model, fi.owner.module, fi.default_factory) is not None]
+    ok = unique_identifier(model, A)[0] and len(uid) == 1
     from .c05 import eq_kind
     rep.check(ok and eq_kind(A) == "generated", "C07.A4", "AcquisitionIdentifier[unique]", A.loc, found=f"compared counter fields: {[u[0] for u in uid]}, eq={eq_kind(A)}",
               required="a compared identifier fed by a counter incremented in __post_init__", what="two measurements with the same qubit and tag are indistinguishable: the later one reports the earlier one's index",
